@@ -647,8 +647,16 @@ func (e *Exec) GenReads(seed uint64, n int) []ReadSpec {
 		case 5:
 			// automatic chunking: single channel (each channel advances by its own
 			// sample count), chunk sizes 1..40
+			// A chunk is the window of the next N INDEX samples; a data channel that
+			// holds no sample in such a window yields a false step although more data
+			// follows, and the top-level iterator offers no way to tell that from the
+			// end. The `while Next(AutoSpan)` read idiom is therefore only complete on
+			// index channels, which is where it is compared.
 			rs.Mode = "auto"
 			rs.Keys = rs.Keys[:1]
+			if !e.specs[rs.Keys[0]].IsIndex {
+				rs.Keys[0] = e.specs[rs.Keys[0]].Index
+			}
 			rs.Span = int64(r.Range(1, 40))
 		}
 		out = append(out, rs)
